@@ -12,7 +12,7 @@ def build(rng, clsname, depth, multi_ok=True, ops=('mul', 'div', 'inv', 'pow', '
     if depth <= 0 or rng.random() < 0.15:
         multi = multi_ok and rng.random() < 0.3 if want_multi is None else want_multi
         if rng.random() < 0.5:
-            n = int(rng.integers(2, 5)) if multi else 1
+            n = int(rng.integers(2, 8)) if multi else 1
             if want_multi is True and rng.random() < 0.25:
                 n = int(rng.integers(16, 41)) if rng.random() < 0.6 else int(rng.integers(64, 131))       # a long sequence under prod() (a trajectory of increments)
             return ['ref', clsname, ctors.ref_leaf(rng, clsname, n)]
